@@ -280,7 +280,7 @@ func runC20(p *Prog, r *Report, tier string) {
 					case *ssa.Alloc:
 					case *ssa.Parameter:
 						// receiver returned: every in-module call site must pass a fresh allocation
-						for _, cs := range p.callersOf(callee) {
+						for _, cs := range p.rawCallersOf(callee) {
 							for _, site := range cs {
 								if _, ok := site.Call.Args[0].(*ssa.Alloc); !ok {
 									nonNil, why = false, "call site at "+p.instrPos(site)+" passes a receiver that is not a fresh allocation"
